@@ -209,6 +209,6 @@ def seeded_patches():
     return out
 
 
-def run(prop, tier, seed):
+def run(prop, tier, seed, base_keys=None):
     from . import runner
-    return runner.run(prop, tier, seed)
+    return runner.run(prop, tier, seed, base_keys)
